@@ -566,6 +566,9 @@ class PrintNodeIdentifier(PrintNode):
         self.key = key
         super(PrintNodeIdentifier, self).__init__()
 
+    def visit_Constant(self, node):
+        return c_integer_as_decimal(node.value)
+
     def visit_Identifier(self, node):
         if node.args is None:
             if node.name in self.symbols:
@@ -575,6 +578,18 @@ class PrintNodeIdentifier(PrintNode):
             return self.param_list(node)
         else:
             return node.name + "()"
+
+def c_integer_as_decimal(value):
+    """Return a C integer constant as a decimal string.
+    A leading zero is an octal constant in C and C++,
+    but not in Fortran or Python.
+    """
+    if len(value) > 1 and value[0] == "0" and value.isdigit():
+        try:
+            return str(int(value, 8))
+        except ValueError:
+            raise RuntimeError("Invalid octal constant '{}'".format(value))
+    return value
 
 def print_node_identifier(node, symbols, key):
     """Convert node to original string and change identifiers
